@@ -51,7 +51,7 @@ theorem computeErrorInto_eq (coefs : List Int) (shift : Nat) (xs errors : List I
   rw [if_neg (by omega)]
   simp only []
   split
-  · exact computeErrorImpl32_eq coefs shift xs errors h
+  · rw [computeErrorImpl32_eq coefs shift xs errors h]
   · rw [zipOverwrite_full _ _ (by rw [computeError64_length, h])]
 
 theorem qlpcErrors_eq (stale : List Int) (coefs : List Int) (shift : Nat) (signal : List Int) :
